@@ -606,6 +606,114 @@ theorem C16_unseeded_differs :
     ⟨[1, 1, 1], [(3, 1)], [[0, 1]]⟩, ⟨[1, 1, 1], [(3, 1)], [[1, 2]]⟩, ?_⟩
   decide
 
+/-! ## one sampler object, several `sample(...)` calls (sampler-state record `Sampler`) -/
+
+/-- A call's result depends only on this call's arguments and on what the generators deliver to it - not on the state
+earlier calls left on the sampler object: two samplers in arbitrary states `s`, `s'` answer the same call with the
+same samples and the same report.  (After the repair of D48; the only attribute `sample` reads or writes is
+`matching_sequences`, see `Sampler`.) -/
+theorem C16_call_local (s s' : Sampler) (c : Call) : (callStep true s c).2 = (callStep true s' c).2 :=
+  callStep_local s s' c
+
+/-- Several calls on ONE sampler, in any order of conditioning kinds: the `k`-th call delivers exactly what the same
+call (same arguments, same draws delivered) delivers on a sampler that has just been built. -/
+theorem C16_session_local (s : Sampler) (cs : List Call) : runSession true s cs = cs.map freshCall :=
+  runSession_eq_map s cs
+
+/-- What a call on a used sampler delivers, by conditioning kind: the samples of `sampleFromHyg` / `sampleFromSeqs` on
+this call's arguments - so `C16_sample_hyg` / `C16_sample_seqs` apply to every call of a session with the conditioning
+of THAT call - and the report `matching_sequences` is the flag of this call's own `_match_sequences` run ("the
+sampler reports as matching" is about the call at hand); `sample(initial_hyg=...)` makes no report. -/
+theorem C16_call_result (s : Sampler) (c : Call) :
+    (callStep true s c).2 =
+      match c.args with
+      | .hyg labels edges => (sampleFromHyg labels edges c.own).map (fun o => ⟨none, o⟩)
+      | .seqs d m => (sampleFromSeqs d m true true [] c.own).map (fun p => ⟨some p.1, p.2⟩)
+      | .model =>
+        (sampleFromSeqs c.inner.degSeq c.inner.dimSeq false false c.inner.dyads c.own).map
+          (fun p => ⟨some p.1, p.2⟩) :=
+  callStep_snd s c
+
+/-- The clause "only nodes of the model (of the initial hypergraph when one is given)" for every call of a session
+on one sampler started in any state: the hyperedges of every sample of the `k`-th call consist of labels of the
+initial hypergraph of the `k`-th call, resp. of node indices `< N` (`N` = length of that call's degree sequence),
+whatever the earlier calls were conditioned on; every sample is well-formed. -/
+theorem C16_session_nodes (s : Sampler) (cs : List Call) (k : Nat) (hk : k < cs.length) (r : CallOut)
+    (h : (runSession true s cs)[k]? = some (some r)) :
+    (∀ labels edges, cs[k].args = .hyg labels edges → labels.Pairwise (· < ·) → AllNodup edges →
+      r.report = none ∧ sampleFromHyg labels edges cs[k].own = some r.outs ∧
+        ∀ o ∈ r.outs, ValidOut o ∧ ∀ p ∈ o, ∀ x ∈ p.1, x ∈ labels) ∧
+    (∀ d m, cs[k].args = .seqs d m →
+      ∃ ok, r.report = some ok ∧ sampleFromSeqs d m true true [] cs[k].own = some (ok, r.outs) ∧
+        ∀ o ∈ r.outs, ValidOut o ∧ ∀ p ∈ o, ∀ x ∈ p.1, x < d.length) ∧
+    (cs[k].args = .model →
+      (∀ e ∈ cs[k].inner.dyads, e.Nodup ∧ e.length = 2 ∧ ∀ x ∈ e, x < cs[k].inner.degSeq.length) →
+      ∃ ok, r.report = some ok ∧
+        sampleFromSeqs cs[k].inner.degSeq cs[k].inner.dimSeq false false cs[k].inner.dyads cs[k].own =
+          some (ok, r.outs) ∧
+        ∀ o ∈ r.outs, ValidOut o ∧ ∀ p ∈ o, ∀ x ∈ p.1, x < cs[k].inner.degSeq.length) := by
+  rw [C16_session_local, List.getElem?_map, List.getElem?_eq_getElem hk, Option.map_some,
+    Option.some.injEq] at h
+  unfold freshCall at h
+  rw [C16_call_result] at h
+  refine ⟨?_, ?_, ?_⟩
+  · intro labels edges ha hl he
+    rw [ha] at h
+    simp only at h
+    cases hs : sampleFromHyg labels edges cs[k].own with
+    | none => simp [hs] at h
+    | some outs =>
+      simp only [hs, Option.map_some, Option.some.injEq] at h
+      subst h
+      obtain ⟨_, hall⟩ := C16_sample_hyg labels edges cs[k].own outs hl he hs
+      refine ⟨rfl, rfl, ?_⟩
+      intro o ho
+      obtain ⟨i, hi, rfl⟩ := List.getElem_of_mem ho
+      obtain ⟨v, hn, _⟩ := hall i hi
+      exact ⟨v, fun p hp x hx => (hn p hp).1 x hx⟩
+  · intro d m ha
+    rw [ha] at h
+    simp only at h
+    cases hs : sampleFromSeqs d m true true [] cs[k].own with
+    | none => simp [hs] at h
+    | some fo =>
+      obtain ⟨ok, outs⟩ := fo
+      simp only [hs, Option.map_some, Option.some.injEq] at h
+      subst h
+      obtain ⟨_, hall⟩ := C16_sample_seqs d m true true [] cs[k].own ok outs (by simp) hs
+      refine ⟨ok, rfl, rfl, ?_⟩
+      intro o ho
+      obtain ⟨i, hi, rfl⟩ := List.getElem_of_mem ho
+      obtain ⟨v, hn, _⟩ := hall i hi
+      exact ⟨v, fun p hp x hx => (hn p hp).1 x hx⟩
+  · intro ha hfix
+    rw [ha] at h
+    simp only at h
+    cases hs : sampleFromSeqs cs[k].inner.degSeq cs[k].inner.dimSeq false false cs[k].inner.dyads cs[k].own with
+    | none => simp [hs] at h
+    | some fo =>
+      obtain ⟨ok, outs⟩ := fo
+      simp only [hs, Option.map_some, Option.some.injEq] at h
+      subst h
+      obtain ⟨_, hall⟩ := C16_sample_seqs _ _ false false _ cs[k].own ok outs hfix hs
+      refine ⟨ok, rfl, rfl, ?_⟩
+      intro o ho
+      obtain ⟨i, hi, rfl⟩ := List.getElem_of_mem ho
+      obtain ⟨v, hn, _⟩ := hall i hi
+      exact ⟨v, fun p hp x hx => (hn p hp).1 x hx⟩
+
+/-- D48, the unrepaired `_match_sequences` (`matching_sequences` is not reset): after a call whose sequences did not
+match, a later call on the same sampler whose sequences DO match (the fresh sampler reports `True` and delivers the
+same sample) reports `False`; with the reset the session reports `True`. -/
+theorem C16_stale_report :
+    ∃ (c₁ c₂ : Call) (o : List (List (Hye × Nat))),
+      (runSession false ⟨none⟩ [c₁, c₂])[1]? = some (some ⟨some false, o⟩) ∧
+      freshCall c₂ = some ⟨some true, o⟩ ∧
+      (runSession true ⟨none⟩ [c₁, c₂])[1]? = some (some ⟨some true, o⟩) :=
+  ⟨⟨.seqs [4, 1, 1] [(2, 3)], ⟨[[0], [2], [], [0], [1], [], [], [0], [], [1]], [], [[]], [[1, 2, 3]]⟩, ⟨[], [], []⟩⟩,
+    ⟨.seqs [2, 2, 1, 1] [(3, 2)], ⟨[[0, 1], [3], [], [2, 0, 1]], [], [[]], [[1, 2]]⟩, ⟨[], [], []⟩⟩,
+    [[([0, 1, 3], 1), ([0, 1, 2], 2)]], by decide, by decide, by decide⟩
+
 /-! ## non-vacuity: the hypotheses `= some _` are met on concrete non-trivial inputs (kernel-evaluated) -/
 
 -- C16_step_preserves: {1,2,3}, {3,4}, pick {4,1} from the disjoint union {1,2,4}
@@ -675,3 +783,17 @@ example : sampleFromHyg [0, 1, 2, 3, 4, 5, 6, 7] [[0, 4], [1, 5], [2, 3, 6]] ⟨
 example : samplerRunModel true
     ⟨fun _ => ⟨[[0, 1, 2]], [], [[]], [[2, 1]]⟩, fun _ => ⟨[1, 1, 1], [(3, 1)], [[0, 1]]⟩⟩ 7 ⟨[], [], []⟩ =
     some (true, [[([0, 1, 2], 2), ([0, 1], 1)]]) := by decide
+
+-- C16_call_local / C16_session_local / C16_session_nodes: ONE sampler, three calls - around an initial hypergraph with
+-- labels 10..50, then on sequences that do not match (report False), then on sequences that match (report True; its
+-- nodes are 0..3, not labels of the hypergraph of the first call), started in a state with a stale report
+example : runSession true ⟨some false⟩
+    [⟨.hyg [10, 20, 30, 40, 50] [[10, 20, 30], [30, 40], [20, 50]],
+        ⟨[], [⟨0, 1, [1, 3], true⟩], [[⟨2, 1, [0, 4], true⟩]], [[1, 2, 2]]⟩, ⟨[], [], []⟩⟩,
+     ⟨.seqs [4, 1, 1] [(2, 3)], ⟨[[0], [2], [], [0], [1], [], [], [0], [], [1]], [], [[]], [[1, 2, 3]]⟩, ⟨[], [], []⟩⟩,
+     ⟨.seqs [2, 2, 1, 1] [(3, 2)], ⟨[[0, 1], [3], [], [2, 0, 1]], [], [[]], [[1, 2]]⟩, ⟨[], [], []⟩⟩,
+     ⟨.model, ⟨[[2, 0, 1]], [], [[]], [[2, 1]]⟩, ⟨[1, 1, 1, 0], [(3, 1)], [[0, 3]]⟩⟩] =
+    [some ⟨none, [[([20, 30, 40], 1), ([20, 30], 2), ([10, 50], 2)]]⟩,
+     some ⟨some false, [[([0, 2], 1), ([0, 1], 5)]]⟩,
+     some ⟨some true, [[([0, 1, 3], 1), ([0, 1, 2], 2)]]⟩,
+     some ⟨some true, [[([0, 1, 2], 2), ([0, 3], 1)]]⟩] := by decide
